@@ -2,6 +2,30 @@
 properties (C01, C02, C03, C04, C05, C06, C11 ...)."""
 import os, sys
 from framework import *
+import json
+
+
+def proofs_or_violation(ctx, files):
+    """builds the property's theorem files; a failed obligation is recorded and
+    reported after the search for a failing input (done by the caller's streams)"""
+    ob, di, detail, ok, lg = check_proofs(ctx, files)
+    ctx.proof = {'obligations': ob, 'discharged': di, 'detail': detail, 'ok': ok}
+    if not ok:
+        ctx.proof['failure'] = getattr(ctx, 'proof_failure', None)
+    return ok
+
+
+def finish_with_proofs(ctx, extra=None):
+    p = ctx.proof
+    if not p['ok'] and not any(not v[2].get('no_failing_input') for v in ctx.violations):
+        ctx.violate('proof', 'proof obligations of %s no longer check: %s' % (ctx.pid, json.dumps(p.get('failure'))[:300]),
+                    {'no_failing_input': True, 'theorem_files': [d['file'] for d in p['detail'] if d['status'] != 'proved'],
+                     'errors': p.get('failure')})
+    ex = {'proof_detail': p['detail']}
+    if extra:
+        ex.update(extra)
+    return finish(ctx, 'proof', p['obligations'], p['discharged'],
+                  'make -C /verif/coq ' + ' '.join(d['file'][:-2] + '.vo' for d in p['detail']), ex)
 
 
 def le(n, w):
